@@ -1141,7 +1141,9 @@ fn f4_len_class(n: usize) -> &'static str {
     }
 }
 
-fn f4_case(c: &mut Ctx, len: usize, py_budget: &mut usize) {
+/// `py_budget`: bytes the Python reference may still be asked to re-compute, kept separately for
+/// inputs below / from 1 MiB so that the multi-megabyte lengths are never starved by the many small ones.
+fn f4_case(c: &mut Ctx, len: usize, py_budget: &mut [usize; 2]) {
     let seed = c.rng.gen_range(0..u64::MAX >> 12);
     let x = stream(seed, len);
     let replay = json!({"len": len, "stream_seed": seed});
@@ -1228,8 +1230,9 @@ fn f4_case(c: &mut Ctx, len: usize, py_budget: &mut usize) {
     }
     c.r.set_max("max_f4_length", len as u64);
     // python re-computation (bounded by bytes, the reference is ~8 MB/s)
-    if *py_budget >= len {
-        *py_budget -= len;
+    let b = &mut py_budget[(len >= 1 << 20) as usize];
+    if *b >= len {
+        *b -= len;
         if len <= 512 {
             c.ev(json!({"k": "f4", "len": len, "seed": seed, "out": hexs(&y)}));
         } else {
@@ -1244,7 +1247,7 @@ fn f4_case(c: &mut Ctx, len: usize, py_budget: &mut usize) {
 fn section_f4(c: &mut Ctx, frac: f64) {
     let quick = c.r.args().tier == vh_common::Tier::Quick;
     let (shard, nshards) = (c.r.args().shard as usize, c.r.args().nshards as usize);
-    let mut py_budget: usize = if quick { 10 << 20 } else { 120 << 20 };
+    let mut py_budget: [usize; 2] = if quick { [3 << 20, 9 << 20] } else { [40 << 20, 100 << 20] };
     let deadline = (c.r.frac_left() - frac).max(0.0);
     // dense at both ends and around the structural boundaries, split over the shards
     let dense = if quick { 400 } else { 4000 };
@@ -1267,8 +1270,11 @@ fn section_f4(c: &mut Ctx, frac: f64) {
     lens.push(64 + 65535 * 64 + 1);
     lens.sort();
     lens.dedup();
-    let mine: Vec<usize> = lens.into_iter().enumerate().filter(|(i, _)| i % nshards == shard).map(|(_, l)| l).collect();
-    // small ones first (cheap, many), then the multi-megabyte ones
+    let mut mine: Vec<usize> = lens.into_iter().enumerate().filter(|(i, _)| i % nshards == shard).map(|(_, l)| l).collect();
+    // small ones first (cheap, many), then the multi-megabyte ones from the top down (so that the
+    // maximum and its neighbours are the ones the Python reference re-computes)
+    let split = mine.partition_point(|l| *l < 1 << 20);
+    mine[split..].reverse();
     for len in mine {
         if c.r.frac_left() <= deadline {
             c.r.inconclusive("budget-exhausted-in-f4-dense-lengths");
@@ -1491,8 +1497,12 @@ fn main() {
         c.r.set_max(&format!("max_ms_section_{name}"), (now - t).as_millis() as u64);
         t = now;
     };
-    section_values(&mut c, args.pick(6_000, 400_000), 0.20);
+    // the event log is what the Python oracle sees: every section gets its own quota
+    let quota = c.events_left;
+    c.events_left = quota * 3 / 10;
+    section_values(&mut c, args.pick(20_000, 400_000), 0.20);
     lap(&mut c, "values");
+    c.events_left = quota / 10;
     section_typed(&mut c, args.pick(150, 6_000), 0.15);
     lap(&mut c, "typed");
     if let Some(path) = args.extra.get("cases").cloned() {
@@ -1501,10 +1511,13 @@ fn main() {
         c.r.note("no --cases file: python-encoded malformed containers were not run");
     }
     lap(&mut c, "pycases");
+    c.events_left = quota * 4 / 10;
     section_mutants(&mut c, args.pick(30_000, 1_000_000), 0.15);
     lap(&mut c, "mutants");
+    c.events_left = quota * 2 / 10;
     section_fuzz(&mut c, args.pick(15_000, 400_000), 0.10);
     lap(&mut c, "fuzz");
+    c.events_left = u64::MAX; // bounded by bytes inside
     section_f4(&mut c, 1.0);
     lap(&mut c, "f4");
     c.r.finish();
